@@ -579,6 +579,13 @@ class FileScan:
                         j += 1
                     if toks[j].t == "=" and toks[j + 1].k == "str" and toks[j + 2].t == ";":
                         self.consts[nxt.t] = toks[j + 1].val
+                if w == "use" and nxt is not None and nxt.t in ("tracing", "log") and prev in (None, ";", "}", "{", "]", "pub", ")"):
+                    # a renamed import would hide a logging macro from the inventory
+                    j = i + 1
+                    while toks[j].t != ";":
+                        if toks[j].k == "ident" and toks[j].t == "as":
+                            raise Unrecognised(f"{self.where(j)}: renamed import from `{nxt.t}` (`as`): the inventory goes by macro name")
+                        j += 1
                 if w == "macro_rules" and nxt is not None and nxt.t == "!":
                     # macro definitions: skip the definition body but scan it for sites by plain recursion below
                     pass
@@ -601,9 +608,11 @@ class FileScan:
                     qual_ok = True
                     if prev == "::":
                         qual_ok = i >= 2 and toks[i - 2].t in ("tracing", "log", "std")
-                    if prev == "." or prev == "fn" or not qual_ok:
+                    if prev == "." or prev == "fn":
                         i += 1
                         continue
+                    if not qual_ok:
+                        raise Unrecognised(f"{self.where(i)}: `{toks[i - 2].t}::{w}!` — a logging macro behind an unknown path")
                     k = match_close(toks, i + 2)
                     self.macro_site(w, i, toks[i + 3:k], scopes)
                     # keep walking inside the arguments (nested closures/blocks keep the scope stack consistent)
@@ -1343,7 +1352,7 @@ def emit(model):
 
     body = []
     # log sites
-    body.append("/-- (a) every logging / printing / `#[instrument]` site of the hand-written sources -/")
+    body.append("/-- (a) every logging / printing / error-message / formatting / `#[instrument]` site -/")
     body.append("def logSites : List (LogSite Src Id) := [")
     rows = []
     for s in model["log_sites"]:
@@ -1446,7 +1455,7 @@ def emit(model):
     body.append("def taintEnv : TaintEnv Src Id :=")
     body.append("  { exposeId := .i_expose, sites := exposeSites, secretNamed := secretNamed, safeTypes := redactingTypes }")
     body.append("")
-    body.append("/-- files scanned on this run (hand-written) / generated files scanned for attributes only -/")
+    body.append("/-- files scanned on this run: hand-written / generated ones that contain a site -/")
     nfiles = sum(1 for s in model["scans"].values() if not s.generated)
     ngen = sum(1 for s in model["scans"].values() if s.generated)
     body.append(f"def scannedFiles : Nat := {nfiles}")
@@ -1456,7 +1465,7 @@ def emit(model):
     head.append("import S3V.Model.Secrets")
     head.append("/-!")
     head.append("GENERATED by translate/emit_sites.py — do not edit; regenerated by every `bin/check C16` run from the working")
-    head.append("tree: all hand-written `.rs` under crates/{s3s,s3s-fs,s3s-aws}/src (+ `generated*.rs` for `#[instrument]`).")
+    head.append("tree: all hand-written `.rs` under crates/{s3s,s3s-fs,s3s-aws}/src (+ those `generated*.rs` that contain a site).")
     head.append("Identifiers and files are constructors of the two enumerations below so that the table obligations of")
     head.append("`S3V/Props/C16.lean` are decided by kernel evaluation.")
     head.append("-/")
